@@ -42,3 +42,33 @@ for fn, h in [("d_string_erase", "h_erase"), ("d_string_append", "h_append"), ("
           callees={"ensureStringBufferCanHold": "body", "libc": "byte-loop reference models lib/libc_models.c (unwound)"},
           assumptions=[NOFAIL])
 
+
+# ---- remaining functions
+_NEW_LOOP = {"d_string_new": [{
+    "loop_id": 0, "vars": ["startingBufferSize", "startingStringSize"],
+    "invariants": "startingBufferSize >= 1024 && (startingBufferSize == 1024 || startingBufferSize <= 2 * startingStringSize + 2)",
+    "assigns": "startingBufferSize",
+    "decreases": "(startingStringSize + 1 > startingBufferSize ? startingStringSize + 1 - startingBufferSize : 0ul)"}]}
+U("ds_A_new", ["C19", "C01"], "h_new", ["C19/ds_more.c"], ["d_string.c"], enforce="d_string_new", loops=_NEW_LOOP,
+  small=_DS_SMALL, native={"repo": []}, min_obligations=20, nobody_ok=["fprintf", "exit"],
+  callees={"strlen/strncpy": "contract stub", "malloc": "CBMC built-in"}, assumptions=[LIBC_ASSUME, NOFAIL])
+U("ds_A_ensure", ["C19", "C01"], "h_ensure", ["C19/ds_more.c"], ["d_string.c"], enforce=_ENSURE, loops=_ENSURE_LOOP,
+  contracts={_ENSURE: "ensure__contract"}, small=_DS_SMALL, native={"repo": []}, min_obligations=20, nobody_ok=["fprintf", "exit"],
+  functions=["ensureStringBufferCanHold (file-local)"], callees={"realloc": "CBMC built-in"}, assumptions=[NOFAIL])
+for _f in ("append_printf", "insert_printf"):
+    U("ds_A_" + _f, ["C19", "C01"], "h_" + _f, ["C19/ds_more.c"], ["d_string.c"], enforce="d_string_" + _f, loops=_ENSURE_LOOP,
+      small=_DS_SMALL, native=None, min_obligations=20, nobody_ok=["fprintf", "exit"],
+      functions=["d_string_" + _f, "vasprintf (d_string.c)"],
+      callees={"vasprintf": "body", "vsnprintf": "assumed stub (returns a ghost count, NUL-terminates)", "d_string_append/insert": "body", "strlen etc.": "contract stub"},
+      assumptions=[LIBC_ASSUME, NOFAIL, "vsnprintf behaves as in C99 and formatted text is shorter than INT_MAX"])
+U("ds_free", ["C19", "C01"], "h_free", ["C19/ds_more.c"], ["d_string.c"], plain=True, lib=(), cbmc_flags=["--unwind", "3", "--unwinding-assertions", "--memory-leak-check"],
+  functions=["d_string_free"], kind="finite", native={"repo": []}, min_obligations=5, nobody_ok=["fprintf", "exit", "vsnprintf"])
+U("ds_null_args", ["C19", "C01"], "h_null", ["C19/ds_more.c"], ["d_string.c"], plain=True, lib=("lib/libc_models.c",), cbmc_flags=["--unwind", "4", "--unwinding-assertions"],
+  functions=["every d_string_* with NULL arguments"], kind="finite", native={"repo": []}, min_obligations=5, nobody_ok=["fprintf", "exit", "vsnprintf"])
+# bounded content of replace_text_in_range (harness-encoded, byte-loop libc models; realloc stubbed as "never needed")
+U("ds_B_replace_3", ["C19"], "h_replace", ["C19/ds_more.c"], ["d_string.c"], plain=True,
+  lib=("lib/libc_models.c",), kind="bounded", defines=["-DHAYB=3", "-DNO_GROWTH"],
+  bounds={"haystack<=": 3, "pattern<=": 2, "replacement<=": 2, "unwind": 5}, cbmc_flags=["--unwind", "5", "--unwinding-assertions"], timeout=900, cost=60,
+  functions=["d_string_replace_text_in_range"], callees={"d_string_erase/insert/ensureStringBufferCanHold": "body", "strstr/strlen/memmove/strncpy": "byte-loop models", "realloc": "stub asserting it is never reached"},
+  native={"repo": []}, nobody_ok=["fprintf", "exit", "vsnprintf"],
+  assumptions=[NOFAIL, "the pattern is non-empty (an empty pattern makes the replace loop diverge; excluded from the ideal-string model)"])
